@@ -4,6 +4,8 @@ import (
 	"encoding/json"
 	"errors"
 	"fmt"
+	"os"
+	"path/filepath"
 	"strconv"
 	"strings"
 	"testing"
@@ -30,13 +32,17 @@ type C07Case struct {
 	MoreCppR [][]ref.Op `json:"more_cpp_r,omitempty"`
 	MorePyW  [][]ref.Op `json:"more_py_w,omitempty"`
 	MorePyR  [][]ref.Op `json:"more_py_r,omitempty"`
+	// MATLAB: call sequences for the generated abstract base classes, executed structurally
+	// (ref/matlab_steps.go): writer ops W/E/C, reader ops R/H/C
+	MW [][]ref.Op `json:"m_w,omitempty"`
+	MR [][]ref.Op `json:"m_r,omitempty"`
 }
 
 func seqs(first []ref.Op, more [][]ref.Op) [][]ref.Op {
 	return append([][]ref.Op{first}, more...)
 }
 
-const c07Rule = "protocol shapes (1-8 steps, any stream/non-stream pattern; 1 in 8 cases a hostile size of 127-130 or 255-257 steps) x four generated call sequences (C++ writer: write/batch-write/end/close; C++ reader: read/batch-read(capacity)/close against a scripted source; Python writer: write/write-iterable/close; Python reader: read/iterate n/close), 70% of the calls drawn along the legal path, 30% arbitrary, each sequence ending at its first rejected call. oracle: reference step automaton per API (harness/ref/steps.go): every call the automaton accepts must succeed and deliver exactly the scripted data, the first call it rejects must raise; calls in corners the documents leave open are not judged. The generated abstract base classes are driven through stub implementations (C++ compiled, Python executed). non-trivial = the sequence contains a rejected call after at least one accepted stream call, or walks a shape with at least 2 streams to completion; distinct = (shape, sequences)"
+const c07Rule = "protocol shapes (1-8 steps, any stream/non-stream pattern; 1 in 8 cases a hostile size of 127-130 or 255-257 steps) x generated call sequences (C++ writer: write/batch-write/end/close; C++ reader: read/batch-read(capacity)/close against a scripted source; Python writer: write/write-iterable/close; Python reader: read/iterate n/close; MATLAB writer: write/end/close and MATLAB reader: read/has/close, six sequences each, run against the generated base classes by structural interpretation of their text), 70% of the calls drawn along the legal path, 30% arbitrary, each sequence ending at its first rejected call. oracle: reference step automaton per API (harness/ref/steps.go): every call the automaton accepts must succeed and deliver exactly the scripted data, the first call it rejects must raise; calls in corners the documents leave open are not judged. The generated abstract base classes are driven through stub implementations (C++ compiled, Python executed). non-trivial = the sequence contains a rejected call after at least one accepted stream call, or walks a shape with at least 2 streams to completion; distinct = (shape, sequences)"
 
 func genShape(t *rapid.T) []bool {
 	n := rapid.IntRange(1, 8).Draw(t, "steps")
@@ -220,6 +226,73 @@ func genOps(t *rapid.T, shape []bool, counts []int, api string) []ref.Op {
 	return ops
 }
 
+// genMatlabOps draws a call sequence for the MATLAB writer (W write, E end stream, C close) or reader
+// (R read, H has, C close), mostly along the legal path, ending at the first rejected call.
+func genMatlabOps(t *rapid.T, shape []bool, counts []int, side string) []ref.Op {
+	n := len(shape)
+	w := &ref.MatlabWriter{Shape: shape}
+	r := &ref.MatlabReader{Shape: shape, Counts: counts}
+	cur := 0
+	var ops []ref.Op
+	for len(ops) < 3*n+14 {
+		legal := rapid.IntRange(0, 99).Draw(t, "mLegal") < 75
+		if n > 100 && cur < n-2 {
+			legal = true
+		}
+		step := cur
+		if !legal || step >= n {
+			step = rapid.IntRange(0, n-1).Draw(t, "mAnyStep")
+		}
+		var op ref.Op
+		if side == "writer" {
+			kinds := []string{"W"}
+			if shape[step] {
+				kinds = []string{"W", "W", "E"}
+			}
+			if cur >= n || !legal {
+				kinds = append(kinds, "C")
+			}
+			if cur >= n && legal {
+				kinds = []string{"C"}
+			}
+			op = ref.Op{Kind: rapid.SampledFrom(kinds).Draw(t, "mKind"), Step: step}
+			v := w.Do(op)
+			ops = append(ops, op)
+			if v != ref.Accept || op.Kind == "C" {
+				break
+			}
+			if op.Kind == "E" || !shape[op.Step] {
+				cur = op.Step + 1
+			}
+			continue
+		}
+		kinds := []string{"R"}
+		if shape[step] {
+			if legal && step == cur && r.Remaining() == 0 {
+				kinds = []string{"H"} // nothing left: only asking is defined
+			} else {
+				kinds = []string{"R", "H", "H"}
+			}
+		}
+		if cur >= n || !legal {
+			kinds = append(kinds, "C")
+		}
+		if cur >= n && legal {
+			kinds = []string{"C"}
+		}
+		op = ref.Op{Kind: rapid.SampledFrom(kinds).Draw(t, "mKind"), Step: step}
+		o := r.Do(op)
+		ops = append(ops, op)
+		if o.V != ref.Accept || op.Kind == "C" {
+			break
+		}
+		if (op.Kind == "R" && !shape[op.Step]) || (op.Kind == "H" && !o.Result) {
+			cur = op.Step + 1
+		}
+	}
+	return ops
+}
+
 func genC07(t *rapid.T) C07Case {
 	c := C07Case{Shape: genShape(t)}
 	c.Counts = make([]int, len(c.Shape))
@@ -232,6 +305,14 @@ func genC07(t *rapid.T) C07Case {
 	c.CppR = genOps(t, c.Shape, c.Counts, "cppr")
 	c.PyW = genOps(t, c.Shape, c.Counts, "pyw")
 	c.PyR = genOps(t, c.Shape, c.Counts, "pyr")
+	nm := 6
+	if len(c.Shape) > 16 {
+		nm = 2
+	}
+	for k := 0; k < nm; k++ {
+		c.MW = append(c.MW, genMatlabOps(t, c.Shape, c.Counts, "writer"))
+		c.MR = append(c.MR, genMatlabOps(t, c.Shape, c.Counts, "reader"))
+	}
 	if len(c.Shape) <= 16 {
 		for k := 0; k < 5; k++ {
 			c.MoreCppW = append(c.MoreCppW, genOps(t, c.Shape, c.Counts, "cppw"))
@@ -404,12 +485,15 @@ func toSutOps(ops []ref.Op) []sut.Op {
 func checkC07(c C07Case) *Fail {
 	rec := core.Rec("C07")
 	p := shapePackage(c.Shape)
-	b, err := sut.Generate(p, sut.BuildOpts{Python: true, Cpp: true, NDJson: false})
+	b, err := sut.Generate(p, sut.BuildOpts{Python: true, Cpp: true, NDJson: false, Matlab: true})
 	if b != nil {
 		defer b.Cleanup()
 	}
 	if err != nil {
 		return failf("c07-gen", "generate failed: %v", err)
+	}
+	if f := checkC07Matlab(c, b); f != nil {
+		return f
 	}
 	// Python
 	var pyJobs []sut.Job
@@ -487,6 +571,124 @@ func checkC07(c C07Case) *Fail {
 	return nil
 }
 
+// checkC07Matlab executes the MATLAB call sequences against the generated base classes, structurally.
+func checkC07Matlab(c C07Case, b *sut.Built) *Fail {
+	rec := core.Rec("C07")
+	if len(c.MW) == 0 && len(c.MR) == 0 {
+		return nil
+	}
+	dir := filepath.Join(b.Root, "out", "m", "+mdl")
+	load := func(name string) *ref.MatlabClass {
+		src, err := os.ReadFile(filepath.Join(dir, name))
+		if err != nil {
+			rec.Skip("matlab-base-class-not-found")
+			return nil
+		}
+		cl, err := ref.ParseMatlabClass(string(src))
+		if err != nil {
+			rec.Skip("matlab-outside-vocabulary")
+			rec.Note("matlab " + name + ": " + err.Error())
+			return nil
+		}
+		return cl
+	}
+	method := func(op ref.Op, side string) string {
+		switch op.Kind {
+		case "C":
+			return "close"
+		case "W":
+			return fmt.Sprintf("write_s%d", op.Step)
+		case "E":
+			return fmt.Sprintf("end_s%d", op.Step)
+		case "R":
+			return fmt.Sprintf("read_s%d", op.Step)
+		case "H":
+			return fmt.Sprintf("has_s%d", op.Step)
+		}
+		return "?"
+	}
+	impl := func(op ref.Op) string {
+		switch op.Kind {
+		case "C":
+			return "close_"
+		case "E":
+			return "end_stream_"
+		}
+		return method(op, "") + "_"
+	}
+	run := func(api string, cl *ref.MatlabClass, ops []ref.Op, do func(ref.Op) ref.Outcome) *Fail {
+		r := ref.NewMatlabRun(cl)
+		left := append([]int(nil), c.Counts...)
+		r.More = func(callee string) bool {
+			var k int
+			fmt.Sscanf(callee, "has_s%d_", &k)
+			return k < len(left) && left[k] > 0
+		}
+		acceptedStream := false
+		for i, op := range ops {
+			want := do(op)
+			if want.V == ref.Unspecified {
+				rec.Class("unspecified-corner")
+				return nil
+			}
+			before := len(r.Calls)
+			raised, known := r.Call(method(op, api))
+			desc := func() string {
+				return fmt.Sprintf("%s (generated MATLAB text, executed structurally), shape %s, stream sizes %v, calls %s, call #%d = %+v", api, shapeStr(c.Shape), c.Counts, opsStr(ops[:i+1]), i, op)
+			}
+			if !known {
+				return failf("c07", "the generated class has no method %s: %s", method(op, api), desc())
+			}
+			if op.Kind == "R" && c.Shape[op.Step] && !raised && op.Step < len(left) {
+				left[op.Step]--
+			}
+			switch want.V {
+			case ref.Accept:
+				if raised {
+					return failf("c07", "a legal call was rejected: %s", desc())
+				}
+				if len(r.Calls) != before+1 || r.Calls[before] != impl(op) {
+					return failf("c07", "a legal call did not reach the implementation method %s (reached %v): %s", impl(op), r.Calls[before:], desc())
+				}
+				if c.Shape[minI(op.Step, len(c.Shape)-1)] && op.Kind != "C" {
+					acceptedStream = true
+				}
+				rec.Class("accepted:" + api)
+			case ref.Reject:
+				if !raised {
+					return failf("c07", "an out-of-order call was accepted: %s", desc())
+				}
+				if op.Kind != "C" && len(r.Calls) != before {
+					return failf("c07", "an out-of-order call reached the implementation (%v) before being rejected: %s", r.Calls[before:], desc())
+				}
+				rec.Class("rejected:" + api)
+				if acceptedStream {
+					rec.Nontrivial(core.Hash(api, c.Shape, ops))
+				}
+				return nil
+			}
+		}
+		return nil
+	}
+	if cl := load("Proto0WriterBase.m"); cl != nil {
+		for _, ops := range c.MW {
+			w := &ref.MatlabWriter{Shape: c.Shape}
+			if f := run("MATLAB writer", cl, ops, func(o ref.Op) ref.Outcome { return ref.Outcome{V: w.Do(o)} }); f != nil {
+				return f
+			}
+		}
+	}
+	if cl := load("Proto0ReaderBase.m"); cl != nil {
+		for _, ops := range c.MR {
+			r := &ref.MatlabReader{Shape: c.Shape, Counts: c.Counts}
+			if f := run("MATLAB reader", cl, ops, r.Do); f != nil {
+				return f
+			}
+		}
+	}
+	return nil
+}
+
 func init() {
 	registerReplay("c07", func(raw json.RawMessage) *Fail {
 		var c C07Case
@@ -500,7 +702,7 @@ func init() {
 func TestC07(t *testing.T) {
 	rec := core.Rec("C07")
 	rec.SetRule(c07Rule)
-	rec.Assume("step payloads are int32: the step state machine does not depend on payload types", "error messages are not compared; MATLAB classes are not executed (no interpreter) - their state machines are not covered by this check", "corners left open by the documents are not judged: Python stream step that never received a call followed by the next step; C++ reader moving on / closing when every item was delivered but no read has returned false yet; zero-capacity batch reads")
+	rec.Assume("step payloads are int32: the step state machine does not depend on payload types", "error messages are not compared; MATLAB classes cannot be run (no interpreter): the step checks of the generated MATLAB base classes, written in a fixed statement vocabulary, are parsed and executed structurally (ref/matlab_steps.go); a file outside that vocabulary is skipped with a note", "corners left open by the documents are not judged: Python stream step that never received a call followed by the next step; C++ reader moving on / closing when every item was delivered but no read has returned false yet; zero-capacity batch reads")
 	replayKnown(t, "C07")
 	rapid.Check(t, func(rt *rapid.T) {
 		c := genC07(rt)
